@@ -183,7 +183,8 @@ def build_doc(rng, skeleton, profile, fps, tokens):
 
   def text(parent):
     textno[0] += 1
-    t = m.Text(doc, "T%d" % textno[0])
+    extra = rng.choice(["", "", "", "", " &<>]]>", "\u00e9\u6f22\U0001f600", "\"q'", "  two  spaces ", "\ttab\nline"])
+    t = m.Text(doc, "T%d%s" % (textno[0], extra))
     parent.push_child(t)
 
   def span_with_text(parent, lang, space, timed=True):
